@@ -519,6 +519,7 @@ def gen_gate_case(rng: random.Random) -> dict:
         streams[k["name"]] = items
     return {"kind": "gate", "kinds": kinds, "streams": streams, "index_delay": index_delay,
             "toggle_delay": [rng.choice([0, 0, 0, 1 / 64, 1 / 16, 1 / 4]) for _ in range(len(kinds) + 1)],
+            "obj_toggle_delay": rng.choice([0, 0, 0, 1 / 64, 1 / 16, 1 / 4]),
             "idle_timeout": rng.choice([5.0, 5.0, 0.25, 1 / 16]),
             "handler_delay": rng.choice([0, 0, 1 / 64, 1 / 4])}
 
@@ -564,6 +565,8 @@ async def run_gate_case(case: dict) -> dict:
                 d = toggle_delays.pop(0) if toggle_delays else 0
                 if d:
                     await asyncio.sleep(d)      # an await point that suspends (as lock contention would)
+            elif name != "orchestration blocker" and case.get("obj_toggle_delay"):
+                await asyncio.sleep(case["obj_toggle_delay"])   # the gap between is_on() and adding the toggle
             t = await super().make_toggle(*a, name=name, **kw)
             if name == "orchestration blocker":
                 labels.append(["spawnBegin", [[k, is_indexed[k]] for k in kinds], self.snap()])
@@ -733,7 +736,7 @@ async def run_gate_case(case: dict) -> dict:
         tasks = list(ensemble.watcher_tasks.values())
         horizon = 2.0 + sum(i["delay"] for its in case["streams"].values() for i in its) \
             + sum(case["index_delay"].values()) + sum(case["toggle_delay"]) \
-            + 12 * (case.get("handler_delay") or 0) + 2 * case["idle_timeout"]
+            + 12 * (case.get("handler_delay") or 0) + 2 * case["idle_timeout"] + 12 * (case.get("obj_toggle_delay") or 0)
         await asyncio.sleep(horizon)
         crashed = [repr(t.exception()) for t in tasks if t.done() and not t.cancelled() and t.exception() is not None]
     finally:
